@@ -103,6 +103,7 @@ class Ctx:
         self.counter = 0
         self.site_counts = {}
         self.havoc_used = False
+        self.input_symbols = {}
         self.spec_depth = 0
         self.quant_depth = 0
         self.quant_obligs = []
